@@ -4,6 +4,7 @@
   measures, Nye tensor).  `K` is any linearly ordered field.
 -/
 import Proofs.C17_Lemmas
+import Proofs.C17_Object
 import Mathlib.Algebra.Order.Ring.Abs
 
 namespace Atomman.C17
